@@ -241,7 +241,7 @@ pub fn global(global: &mut FunctionMap) {
                 }
                 Value::Call(name, args) => {
                     if name == "calc" {
-                        let arg = args.get_single().unwrap();
+                        let arg = args.get_single().map_err(bad_argument)?;
                         match do_eval(arg.clone())? {
                             Value::Literal(s) if s.is_name() => Ok(s.into()),
                             arg => Ok(Value::Paren(Box::new(arg))),
